@@ -1893,11 +1893,11 @@ class Food(UnitConversions):
                 )
             )
 
-        # Check if all macronutrients are greater than or equal to zero
+        # Check if all macronutrients are greater than or equal to zero (within the same threshold as for a monthly food)
         return (
-            self.kcals >= 0
-            and (self.fat >= 0 or self.conversions.exclude_fat)
-            and (self.protein >= 0 or self.conversions.exclude_protein)
+            self.kcals >= -threshold
+            and (self.fat >= -threshold or self.conversions.exclude_fat)
+            and (self.protein >= -threshold or self.conversions.exclude_protein)
         )
 
     # Helper functions to get properties of the three nutrient values
